@@ -2,9 +2,11 @@
    where recorded ranges come from, that they are tight for the field, that numbers increase
    across fields and paragraphs, and the shift law for the WHOLE copyright object including
    merged unknown paragraphs and folded licenses, for every text in which each paragraph has
-   a field with a value; how ranges compose through merge and fold - start of the first,
-   end of the last merged paragraph - is read off the model and decided by co-execution and by
-   the executable statement, not proved as a separate theorem). *)
+   a field with a value, and how ranges compose through merge (span of the merged paragraphs)
+   and fold (from the License field or the start of the unknown paragraph to its end).  Not
+   assembled into one statement: that in the final object every range of a valued field is
+   within 1..#lines and that ranges of different fields are disjoint and increasing across the
+   merged and folded paragraphs - decided by co-execution and by the executable statement). *)
 From Coq Require Import String.
 From Coq Require Import NArith List Bool Sorted.
 From DI Require Import Result PyStr Deb822 Debcon Copyright Deb822Facts CopyrightFacts RangeFacts Dep5Facts ShiftFacts.
@@ -51,6 +53,31 @@ Theorem C10_shift_whole_object : forall k t gs, groups t = Ok gs -> Forall (fun 
   from_text (repeat 10 k ++ t) = rmap (map (shift_para (N.of_nat k))) (from_text t).
 Proof. exact from_text_shift. Qed.
 Print Assumptions C10_shift_whole_object.
+
+(* how ranges compose: the merged unknown paragraph spans the merged paragraphs (smallest start,
+   largest end, both attained) *)
+Theorem C10_merge_range_spans : forall run r0 rs, para_ranges run = r0 :: rs ->
+  exists r, p_lines (merge_run run) = [(lit "unknown", r)] /\
+    (forall x, In x (r0 :: rs) -> fst r <= fst x /\ snd x <= snd r) /\
+    (exists x, In x (r0 :: rs) /\ fst r = fst x) /\ (exists y, In y (r0 :: rs) /\ snd r = snd y).
+Proof. exact merge_range_spans. Qed.
+Print Assumptions C10_merge_range_spans.
+
+(* the folded license starts where its License field started, or else where the unknown paragraph
+   starts, and ends where the unknown paragraph ends *)
+Theorem C10_fold_range : forall p1 p2,
+  p_lines (fold_pair p1 p2) =
+  dict_put (lit "license")
+    (match dict_get (lit "license") (p_lines p1) with Some (s, _) => s | None => fst (first_last p2) end, snd (first_last p2))
+    (p_lines p1).
+Proof. exact fold_range. Qed.
+Print Assumptions C10_fold_range.
+
+(* the span of a paragraph covers the ranges of all its fields *)
+Theorem C10_paragraph_span : forall p, p_lines p <> [] ->
+  forall kv, In kv (p_lines p) -> fst (first_last p) <= fst (snd kv) /\ snd (snd kv) <= snd (first_last p).
+Proof. exact first_last_spans. Qed.
+Print Assumptions C10_paragraph_span.
 
 Example C10_shift_recovery_paths :
   let t := lit "junk one
